@@ -193,7 +193,7 @@ def _job(job):
     sc, levels = job
     prog, inproc = build(sc)
     # a RESUME after an error inside a procedure is outside the property: such scenarios end in the handler
-    if inproc and sc['form'] in ('resume-next', 'resume', 'mode-next'):
+    if inproc and sc['form'] in ('resume-next', 'resume'):
         return None
     prog['errcodes'] = errcodes()
     text = gen.Unparser(prog).text()
